@@ -516,10 +516,16 @@ def gen_net_case(rng, kind):
     s.obs()
     if kind == "longlived":
         # long enough (virtual time) for the sessions' ping / pong frames to interleave with the traffic
+        tg = sorted(s.known & s.alive)
         for _ in range(rng.choice([2, 3])):
             traffic(s, rng.choice([5, 15]))
+            # calls WITHOUT a timeout whose real actor answers only after 11-30 virtual seconds: the
+            # session is up, the actor does answer, so the reply must come back to the caller
+            for _ in range(rng.choice([1, 2])):
+                s.call(rng.randrange(4), rng.choice([0, 1]), rng.choice(tg), 1, rng.choice([11000, 15000, 29000]), 0, 8)
             s.settle()
             s.op(f"advance {rng.choice([2500, 6000])}")
+        s.op("advance 31000")
         s.settle()
         s.op("advance 300")
         s.settle()
